@@ -167,6 +167,40 @@ func repeatable(a, b *ucfg.Config, opts []ucfg.Option) bool {
 	return true
 }
 
+// stored renders the stored structure of a config (snapshot hook: names,
+// payloads and expressions of every node, nothing is evaluated). Two equal
+// renderings mean that nothing was merged into the config in between.
+func stored(c *ucfg.Config) string { return ucfg.VerifFingerprint(c, false) }
+
+// frozen is the state of a collected config right after the first failing
+// argument. Reading of the statement (the fold stops at the first failing
+// argument; the collector's Add returns early once it holds an error): from
+// then on the config stays what it was, whatever follows.
+type frozen struct {
+	at   int
+	fp   string
+	data view
+}
+
+func freeze(at int, c *ucfg.Config, opts []ucfg.Option) *frozen {
+	return &frozen{at: at, fp: stored(c), data: viewOf(c, opts)}
+}
+
+func (f *frozen) check(what string, c *ucfg.Config, opts []ucfg.Option) error {
+	if fp := stored(c); fp != f.fp {
+		return fmt.Errorf("%s: the config changed after the first failure (argument %d): a setting that follows a failed one was merged\n data at the failure %s\n data now            %s\n stored at the failure:\n%s stored now:\n%s",
+			what, f.at, f.data, viewOf(c, opts), clip(f.fp), clip(fp))
+	}
+	return nil
+}
+
+func clip(s string) string {
+	if len(s) > 1500 {
+		return s[:1500] + "...\n"
+	}
+	return s
+}
+
 func isPanic(err error) bool { return err != nil && strings.Contains(err.Error(), " panicked: ") }
 
 // hasNonFinite reports whether the data holds a NaN or an infinity, which
@@ -486,6 +520,7 @@ func runKV(c KVCase, r *runlog.R) error {
 	var classes []string
 	applied := map[string]bool{} // arguments merged so far
 	var prev *view               // the data after the previous argument, when asserted
+	var fz *frozen               // the config right after the first failing argument
 
 args:
 	for i, arg := range c.Args {
@@ -509,6 +544,18 @@ args:
 			if got := errText(fv.Error()); got != firstMsg {
 				return fmt.Errorf("arg %d %q: Error() changed after the first failure (arg %d %q):\n got  %s\n want %s", i, arg, failedAt, c.Args[failedAt], got, firstMsg)
 			}
+			if fv.Config() != handle {
+				return fmt.Errorf("arg %d %q: Config() returns a different object than before the call", i, arg)
+			}
+			if err := fz.check(fmt.Sprintf("arg %d %q", i, arg), fv.Config(), opts); err != nil {
+				return err
+			}
+			switch {
+			case st.kind == stSetting:
+				classes = append(classes, "after failure: a well-formed setting is given (config must stay)")
+			case st.kind == stFail:
+				classes = append(classes, "after failure: another failing argument")
+			}
 			continue
 		}
 
@@ -520,6 +567,7 @@ args:
 			}
 		}
 
+		storedBefore := stored(fv.Config())
 		var setErr error
 		if err := uc.Safe("Set", func() error { setErr = fv.Set(arg); return nil }); err != nil {
 			return fmt.Errorf("arg %d %q: %v", i, arg, err)
@@ -530,12 +578,23 @@ args:
 
 		failNow := func(msg string) {
 			failedAt, firstMsg = i, msg
+			fz = freeze(i, fv.Config(), opts)
+		}
+		// an argument that is ignored or whose setting cannot be created merges nothing
+		unchanged := func(why string) error {
+			if now := stored(fv.Config()); now != storedBefore {
+				return fmt.Errorf("arg %d %q %s, but the config changed:\n stored before:\n%s stored after:\n%s", i, arg, why, clip(storedBefore), clip(now))
+			}
+			return nil
 		}
 		switch {
 		case st.kind == stIgnored:
 			classes = append(classes, "arg:empty value")
 			if setErr != nil {
 				return fmt.Errorf("arg %d %q: a key with an empty value is to be ignored, Set returned %v", i, arg, setErr)
+			}
+			if err := unchanged("has an empty value and is to be ignored"); err != nil {
+				return err
 			}
 		case st.kind == stSetting && mergeErr == nil:
 			if strings.IndexByte(arg, '=') < 0 {
@@ -574,6 +633,9 @@ args:
 			}
 			if !strings.Contains(fv.Error().Error(), st.err.Error()) {
 				return fmt.Errorf("arg %d %q: Error() = %q, the argument's error is %q", i, arg, fv.Error(), st.err)
+			}
+			if err := unchanged("fails in " + st.why); err != nil {
+				return err
 			}
 			failNow(fv.Error().Error())
 		case st.kind == stUnspecified:
@@ -740,6 +802,19 @@ func runKVFlagSet(c KVCase, r *runlog.R) error {
 			return fmt.Errorf("Parse returned %q, the error of arg %d %q is %q", parseErr, failedAt, c.Args[failedAt], failErr)
 		}
 		r.Class("some argument fails")
+		// the config holds the settings before the failing argument and nothing else
+		want, got := viewOf(acc, opts), viewOf(cfg, opts)
+		if isPanic(got.err) && !isPanic(want.err) {
+			return got.err
+		}
+		if !sameView(got, want) {
+			if c.Opts.VarExp && !repeatable(cfg, acc, opts) {
+				r.Class("varexp: unpacking is not repeatable, data not asserted")
+			} else {
+				return fmt.Errorf("after Parse failed at arg %d %q the config returned by ConfigVar differs from folding the settings before it (%s):\n got  %s\n want %s", failedAt, c.Args[failedAt], c.Opts.Policy, got, want)
+			}
+		}
+		r.ClassIf(failedAt < len(c.Args)-1, "failure followed by further arguments on the command line (config = fold before the failure)")
 	case failedAt >= 0:
 		r.Class("arg:merge fails")
 	default:
@@ -770,7 +845,7 @@ func runKVFlagSet(c KVCase, r *runlog.R) error {
 
 var subKV = runlog.Register(&runlog.Sub[KVCase]{
 	Name: "flag-kv",
-	Rule: "1-8 arguments for one NewFlagKeyValue flag driven through Set (5/6) or for flag.ConfigVar in a standard library FlagSet parsed as -E arg -E arg ... (1/6): keys of 1-3 segments over {a,b,c,d,0,1,2} plus odd spellings (empty segments, signs, other bases, blanks, non-ASCII, the index cap), 40% of the keys repeat an earlier one (1/12 of those with a value that holds no data: null [] {} [null] {a: null} \"\" ...), 1/8 of the arguments after the first repeat an earlier argument verbatim (classes again:*: how often, and how often merging it again changes the data), with '=' or bare, values rendered from a grammar covering every syntax parse.Value documents (numbers, bools, null, bare/quoted strings, comma lists, [..], {..}, nesting, ${..} references), empty values, and malformed values (fixed near-misses, unterminated references, well-formed containers cut at any position) at any position; options PathSep, VarExp (+Resolve), one of the 5 merge policies; autoBool on/off; optional initial config. Oracle: the fold of ucfg.NewFrom(map{key: parse.Value(value)}, opts...) with Merge(.., opts...) from the initial config, compared (canonical dump, or both fail to unpack) after every argument up to the first failing one; Config() keeps its identity (and is the initial config); Set returns that argument's error; Error() is nil before and stays the first error after any further Set/String calls; key= changes nothing and is no error; bare key = true with autoBool (without autoBool the docs are silent: an error is treated as the failing argument, acceptance ends the data assertions); String() is the JSON of the data whenever the data can be unpacked, has no NaN/Inf and no top-level list part. Not asserted: the config after a failure. Discarded: cases in which parse.Value/NewFrom/Merge themselves panic on an argument (C07's subject). Non-trivial: two applied arguments whose key paths are equal or a prefix of one another under a non-default policy, or a failing argument followed by further arguments. Distinct: hash of the case.",
+	Rule: "1-8 arguments for one NewFlagKeyValue flag driven through Set (5/6) or for flag.ConfigVar in a standard library FlagSet parsed as -E arg -E arg ... (1/6): keys of 1-3 segments over {a,b,c,d,0,1,2} plus odd spellings (empty segments, signs, other bases, blanks, non-ASCII, the index cap), 40% of the keys repeat an earlier one (1/12 of those with a value that holds no data: null [] {} [null] {a: null} \"\" ...), 1/8 of the arguments after the first repeat an earlier argument verbatim (classes again:*: how often, and how often merging it again changes the data), with '=' or bare, values rendered from a grammar covering every syntax parse.Value documents (numbers, bools, null, bare/quoted strings, comma lists, [..], {..}, nesting, ${..} references), empty values, and malformed values (fixed near-misses, unterminated references, well-formed containers cut at any position) at any position; options PathSep, VarExp (+Resolve), one of the 5 merge policies; autoBool on/off; optional initial config. Oracle: the fold of ucfg.NewFrom(map{key: parse.Value(value)}, opts...) with Merge(.., opts...) from the initial config, compared (canonical dump, or both fail to unpack) after every argument up to the first failing one; Config() keeps its identity (and is the initial config); Set returns that argument's error; Error() is nil before and stays the first error after any further Set/String calls; key= changes nothing and is no error; bare key = true with autoBool (without autoBool the docs are silent: an error is treated as the failing argument, acceptance ends the data assertions); String() is the JSON of the data whenever the data can be unpacked, has no NaN/Inf and no top-level list part. After EVERY argument both the error and the config are compared with the fold: an ignored argument (key=) and an argument whose setting cannot be created leave the stored config exactly as it was (snapshot hook: names, payloads and expressions of every node, unevaluated); once an argument has failed, the error stays the first one AND the stored config stays what it was right after the failing argument, whatever follows (well-formed settings, further failures, String calls; classes `after failure:*`); through a FlagSet, where Parse stops at the failing argument, the returned config must equal the fold of the arguments before it. Only the state right after a failing MERGE (as opposed to a setting that cannot be created) is not compared with the fold. Discarded: cases in which parse.Value/NewFrom/Merge themselves panic on an argument (C07's subject). Non-trivial: two applied arguments whose key paths are equal or a prefix of one another under a non-default policy, or a failing argument followed by further arguments. Distinct: hash of the case.",
 	Gen:  genKV,
 	Run:  runKV,
 })
@@ -845,6 +920,7 @@ func runCollector(c ColCase, r *runlog.R) error {
 	var first error
 	failedAt := -1
 	merges := 0
+	var fz *frozen
 	for i, s := range c.Steps {
 		var stepErr error
 		if s.Err != "" {
@@ -862,9 +938,16 @@ func runCollector(c ColCase, r *runlog.R) error {
 			}
 			merges++
 		}
+		storedBefore := stored(col.Config())
 		var ret error
 		if err := uc.Safe("Add", func() error { ret = col.Add(srcs[i], stepErr); return nil }); err != nil {
 			return fmt.Errorf("step %d: %v", i, err)
+		}
+		if srcs[i] == nil {
+			// nothing to merge, with or without an error
+			if now := stored(col.Config()); now != storedBefore {
+				return fmt.Errorf("step %d: Add(nil, %v) changed the config:\n stored before:\n%s stored after:\n%s", i, stepErr, clip(storedBefore), clip(now))
+			}
 		}
 		switch {
 		case first != nil:
@@ -902,7 +985,21 @@ func runCollector(c ColCase, r *runlog.R) error {
 			return fmt.Errorf("step %d: Error() = %s, the first error is %s (step %d)", i, errText(col.Error()), errText(first), failedAt)
 		}
 		if first != nil {
-			continue // the config after a failure is not asserted
+			// the config stays what it was right after the failing call
+			if fz == nil {
+				fz = freeze(i, col.Config(), opts)
+				if stepErr != nil && stored(col.Config()) != storedBefore {
+					// Add(cfg, err): the error says that there is no usable config
+					return fmt.Errorf("step %d: Add(cfg, %q) merged the config it was given together with an error:\n stored before:\n%s stored after:\n%s", i, stepErr, clip(storedBefore), clip(fz.fp))
+				}
+				continue
+			}
+			if err := fz.check(fmt.Sprintf("step %d", i), col.Config(), opts); err != nil {
+				return err
+			}
+			r.ClassIf(stepErr == nil && srcs[i] != nil, "after failure: a config without error is added (config must stay)")
+			r.ClassIf(stepErr != nil && srcs[i] != nil, "after failure: a config with an error is added")
+			continue
 		}
 		want, got := viewOf(acc, opts), viewOf(col.Config(), opts)
 		if isPanic(got.err) && !isPanic(want.err) {
@@ -934,7 +1031,7 @@ func runCollector(c ColCase, r *runlog.R) error {
 
 var subCol = runlog.Register(&runlog.Sub[ColCase]{
 	Name: "collector",
-	Rule: "cfgutil.NewCollector(initial or nil, opts...) followed by 1-6 Add(cfg, err) calls: cfg a random tree over keys {a,b,c,d} (or nil), err nil or a distinct error, both, or neither; 1/6 of the config steps after the first give the config OBJECT of an earlier step once more (classes again:*). Oracle: Config() is the construction config (or a fresh one) and keeps its identity; before the first error the data equals merging the configs in order with the construction options; Add returns the step's error, Error()/Get() keep the first error; GetOptions() has the length and the behaviour (fixed build/merge/unpack probe) of the construction options. Non-trivial: >=2 configs (counting the initial one) meet under a non-default policy, or an error is followed by further calls. Distinct: hash of the case.",
+	Rule: "cfgutil.NewCollector(initial or nil, opts...) followed by 1-6 Add(cfg, err) calls: cfg a random tree over keys {a,b,c,d} (or nil), err nil or a distinct error, both, or neither; 1/6 of the config steps after the first give the config OBJECT of an earlier step once more (classes again:*). Oracle: Config() is the construction config (or a fresh one) and keeps its identity; before the first error the data equals merging the configs in order with the construction options; Add returns the step's error, Error()/Get() keep the first error; Add(nil, err) and Add(nil, nil) leave the stored config exactly as it was (snapshot hook, unevaluated), Add(cfg, err) does not merge cfg, and from the first error on (a given error or a failing merge) the stored config stays what it was right after that call, whatever is added later (configs without error: class `after failure: a config without error is added`); GetOptions() has the length and the behaviour (fixed build/merge/unpack probe) of the construction options. Non-trivial: >=2 configs (counting the initial one) meet under a non-default policy, or an error is followed by further calls. Distinct: hash of the case.",
 	Gen:  genCollector,
 	Run:  runCollector,
 })
@@ -1128,6 +1225,7 @@ func runFiles(c FilesCase, r *runlog.R) error {
 	firstMsg := ""
 	loaded := 0
 	var classes []string
+	var fz *frozen
 	given := map[int][]string{} // target -> the spellings it was given in so far
 	for i, f := range c.Files {
 		tgt := c.target(i)
@@ -1150,6 +1248,27 @@ func runFiles(c FilesCase, r *runlog.R) error {
 			if got := errText(fv.Error()); got != firstMsg {
 				return fmt.Errorf("file %d %q: Error() changed after the first failure (file %d %q):\n got  %s\n want %s", i, f.Name, failedAt, c.Files[failedAt].Name, got, firstMsg)
 			}
+			if fv.Config() != handle {
+				return fmt.Errorf("file %d %q: Config() returns a different object than before the call", i, f.Name)
+			}
+			if err := fz.check(fmt.Sprintf("file %d %q", i, f.Name), fv.Config(), opts); err != nil {
+				return err
+			}
+			// does the file load on its own? (only for the evidence)
+			e, ok := expect[filepath.Ext(path)]
+			if !ok {
+				e, ok = expect[""]
+			}
+			if ok {
+				var lerr error
+				var lc *ucfg.Config
+				uc.Safe("oracle", func() error { lc, lerr = realLoader(c.Exts[e].Loader)(path, opts...); return nil })
+				if lerr == nil && lc != nil {
+					classes = append(classes, "after failure: a file that loads is given (config must stay)")
+				} else {
+					classes = append(classes, "after failure: another failing file")
+				}
+			}
 			continue
 		}
 		// the definition: loader by extension, else the "" entry, else an error
@@ -1166,9 +1285,11 @@ func runFiles(c FilesCase, r *runlog.R) error {
 		if f.Again > 0 {
 			before = viewOf(acc, opts)
 		}
+		loadFails := false
 		if ok {
 			if err := uc.Safe("oracle", func() error {
 				want, wantErr = realLoader(c.Exts[entry].Loader)(path, opts...)
+				loadFails = wantErr != nil
 				if wantErr == nil && want != nil {
 					wantErr = acc.Merge(want, opts...)
 				}
@@ -1183,12 +1304,20 @@ func runFiles(c FilesCase, r *runlog.R) error {
 		classes = append(classes, "dispatch:"+how)
 
 		ncalls := len(calls)
+		storedBefore := stored(fv.Config())
 		var setErr error
 		if err := uc.Safe("Set", func() error { setErr = fv.Set(path); return nil }); err != nil {
 			return fmt.Errorf("file %d %q: %v", i, f.Name, err)
 		}
 		if fv.Config() != handle {
 			return fmt.Errorf("file %d %q: Config() returns a different object than before the call", i, f.Name)
+		}
+		// a file that cannot be loaded merges nothing
+		unchanged := func(why string) error {
+			if now := stored(fv.Config()); now != storedBefore {
+				return fmt.Errorf("file %d %q %s, but the config changed:\n stored before:\n%s stored after:\n%s", i, f.Name, why, clip(storedBefore), clip(now))
+			}
+			return nil
 		}
 		mine := calls[ncalls:]
 		if !ok {
@@ -1198,7 +1327,11 @@ func runFiles(c FilesCase, r *runlog.R) error {
 			if fv.Error() == nil {
 				return fmt.Errorf("file %d %q: no loader for %q and no fallback, but Error() is nil", i, f.Name, ext)
 			}
+			if err := unchanged("has no loader"); err != nil {
+				return err
+			}
 			failedAt, firstMsg = i, fv.Error().Error()
+			fz = freeze(i, fv.Config(), opts)
 			continue
 		}
 		if len(mine) == 0 {
@@ -1228,7 +1361,13 @@ func runFiles(c FilesCase, r *runlog.R) error {
 			if !strings.Contains(fv.Error().Error(), wantErr.Error()) {
 				return fmt.Errorf("file %d %q: Error() = %q, the file's error is %q", i, f.Name, fv.Error(), wantErr)
 			}
+			if loadFails {
+				if err := unchanged("cannot be loaded"); err != nil {
+					return err
+				}
+			}
 			failedAt, firstMsg = i, fv.Error().Error()
+			fz = freeze(i, fv.Config(), opts)
 			continue
 		}
 		loaded++
@@ -1330,6 +1469,7 @@ func runFilesFlagSet(c FilesCase, r *runlog.R, dir string, opts []ucfg.Option, i
 	wantBehav := behaviour(opts)
 	failedAt := -1
 	var failErr error // nil: no loader for the file
+	mergeFails := false
 	loaded, again, againChanges := 0, 0, 0
 	paths := make([]string, len(c.Files))
 	entries := make([]int, len(c.Files))
@@ -1357,6 +1497,7 @@ func runFilesFlagSet(c FilesCase, r *runlog.R, dir string, opts []ucfg.Option, i
 			want, err := realLoader(c.Exts[entry].Loader)(paths[i], opts...)
 			if err == nil && want != nil {
 				err = acc.Merge(want, opts...)
+				mergeFails = err != nil
 			}
 			wantErr = err
 			return nil
@@ -1449,6 +1590,22 @@ func runFilesFlagSet(c FilesCase, r *runlog.R, dir string, opts []ucfg.Option, i
 		if parseErr != nil && failErr != nil && !strings.Contains(parseErr.Error(), failErr.Error()) {
 			return fmt.Errorf("Parse returned %q, the error of the first failing argument %d %q is %q", parseErr, failedAt, paths[failedAt], failErr)
 		}
+		// Parse goes on after a file that fails (file flags postpone error checking): the config holds the files
+		// before the first failing one and nothing of what follows (unless merging itself failed half way)
+		if !mergeFails {
+			wantV, gotV := viewOf(acc, opts), viewOf(fv.Config(), opts)
+			if isPanic(gotV.err) && !isPanic(wantV.err) {
+				return gotV.err
+			}
+			if !sameView(gotV, wantV) && c.Opts.VarExp && !repeatable(fv.Config(), acc, opts) {
+				r.Class("varexp: unpacking is not repeatable, data not asserted")
+			} else if !sameView(gotV, wantV) {
+				return fmt.Errorf("%s: after parsing -c %s, where argument %d fails, the flag's config differs from merging the files before it (%s):\n got  %s\n want %s",
+					ctor, strings.Join(paths, " -c "), failedAt, c.Opts.Policy, gotV, wantV)
+			}
+			r.ClassIf(failedAt < len(paths)-1, "nt:failure followed by further files")
+			r.ClassIf(failedAt < len(paths)-1, "after failure: further files on the command line (config = files before the failure)")
+		}
 	default:
 		if parseErr != nil {
 			return fmt.Errorf("Parse failed with %v, every file can be loaded and merged", parseErr)
@@ -1476,13 +1633,13 @@ func runFilesFlagSet(c FilesCase, r *runlog.R, dir string, opts []ucfg.Option, i
 	r.ClassIf(againChanges > 0, "again:merging it again changes the data")
 	multi := c.Opts.Policy != model.Default && (loaded >= 2 || (loaded >= 1 && c.Init != nil))
 	r.ClassIf(multi, "nt:two configs meet under a non-default policy")
-	r.NonTrivialIf(multi)
+	r.NonTrivialIf(multi || (failedAt >= 0 && failedAt < len(paths)-1 && !mergeFails))
 	return nil
 }
 
 var subFiles = runlog.Register(&runlog.Sub[FilesCase]{
 	Name: "flag-files",
-	Rule: "1-5 file arguments for one NewFlagFiles flag driven through Set (4/5), or for a file flag registered in a standard library FlagSet and parsed as -c path -c path ... (1/5: ConfigFilesVar with the table, or the constructor that has the table built in: ConfigFilesExtsVar/ConfigYAMLFilesVar/ConfigJSONFilesVar); files (JSON, block YAML, top-level lists, documents without data such as null {} [] ~ or a comment, truncated or malformed text, empty, missing) are written under the run's work directory; names combine bases with inner dots and the extensions .json .yaml .yml .txt .JSON .conf .jsonx or none; 40% of the arguments after the first name the file of an earlier argument AGAIN (any earlier one, so A,A and A,B,A and longer patterns; 1/4 of these with the file rewritten in between), 10% of the new files copy the content of an earlier file; 3/8 of all arguments spell their path in another way that names the same file (dir/./name, dir//name, dir/sub/../name, relative to the working directory, through a symbolic link, a hard link, a symlinked directory); extension table one of 7 (the ConfigFilesExts table, yaml/json fallback only, extension plus fallback, single entry, empty, custom) built from recording wrappers around json/yaml.NewConfigWithFile; options as in flag-kv. Oracle: for EVERY argument, also one given before, the loader registered for filepath.Ext(path), else the \"\" entry, else an error, is the one called, with the path as given and with options that have the length and behaviour of the flag's; the data equals merging loader(path, opts...) (read at the time of the argument) in order with Merge(.., opts...) up to the first failing file; Error() reports that file's error and keeps it; String() is the JSON of the data. Through a FlagSet the same is asserted once after Parse (loader calls as an ordered subsequence; Parse may or may not report a postponed file error). Classes again:* count files named again, in a spelling used before or a new one, and how often merging the file again changes the data (which is when reading a file only once would be visible). Non-trivial: >=2 configs (counting the initial one) meet under a non-default policy, or a failing file is followed by further files. Distinct: hash of the case.",
+	Rule: "1-5 file arguments for one NewFlagFiles flag driven through Set (4/5), or for a file flag registered in a standard library FlagSet and parsed as -c path -c path ... (1/5: ConfigFilesVar with the table, or the constructor that has the table built in: ConfigFilesExtsVar/ConfigYAMLFilesVar/ConfigJSONFilesVar); files (JSON, block YAML, top-level lists, documents without data such as null {} [] ~ or a comment, truncated or malformed text, empty, missing) are written under the run's work directory; names combine bases with inner dots and the extensions .json .yaml .yml .txt .JSON .conf .jsonx or none; 40% of the arguments after the first name the file of an earlier argument AGAIN (any earlier one, so A,A and A,B,A and longer patterns; 1/4 of these with the file rewritten in between), 10% of the new files copy the content of an earlier file; 3/8 of all arguments spell their path in another way that names the same file (dir/./name, dir//name, dir/sub/../name, relative to the working directory, through a symbolic link, a hard link, a symlinked directory); extension table one of 7 (the ConfigFilesExts table, yaml/json fallback only, extension plus fallback, single entry, empty, custom) built from recording wrappers around json/yaml.NewConfigWithFile; options as in flag-kv. Oracle: for EVERY argument, also one given before, the loader registered for filepath.Ext(path), else the \"\" entry, else an error, is the one called, with the path as given and with options that have the length and behaviour of the flag's; the data equals merging loader(path, opts...) (read at the time of the argument) in order with Merge(.., opts...) up to the first failing file; Error() reports that file's error and keeps it; a file without loader or one that cannot be loaded leaves the stored config exactly as it was (snapshot hook, unevaluated), and after the first failing file the stored config stays what it was right after it, whatever files follow (classes `after failure:*`: files that load on their own, further failing files); String() is the JSON of the data. Through a FlagSet the same is asserted once after Parse (loader calls as an ordered subsequence; Parse may or may not report a postponed file error; Parse goes on after a failing file, so the config must equal the merge of the files BEFORE the first failing one - not asserted only when the failure is a failing merge). Classes again:* count files named again, in a spelling used before or a new one, and how often merging the file again changes the data (which is when reading a file only once would be visible). Non-trivial: >=2 configs (counting the initial one) meet under a non-default policy, or a failing file is followed by further files (also on a FlagSet command line). Distinct: hash of the case.",
 	Gen:  genFiles,
 	Run:  runFiles,
 })
